@@ -5,6 +5,8 @@ import ast
 
 import sympy as sp
 
+from ptstat.world import mass_sym
+
 from ptstat import AnalysisError
 from ptstat.symval import SymObj, Phi, SymRaise, Vec
 from ptstat.symlib import interp_f, vec_f
@@ -40,7 +42,7 @@ def run(ctx):
     q = sp.symbols("q1:4", positive=True)
     comp = {A["element"]: q[0], A["ion_isotope"]: q[1], A["element2"]: q[2]}
     me = sp.Symbol("m_e", positive=True)
-    m = [sp.Symbol("m_Fe", positive=True), sp.Symbol("m_Fe56", positive=True) - 3 * me, sp.Symbol("m_O", positive=True)]
+    m = [mass_sym("Fe"), mass_sym("Fe56") - 3 * me, mass_sym("O")]
     b = [sp.Symbol(f"br_{t}", real=True) - sp.I * sp.Symbol(f"bi_{t}", nonnegative=True)
          for t in ("element", "isotope", "element2")]
     s = [sp.Symbol(f"s_{t}", positive=True) for t in ("element", "isotope", "element2")]
@@ -65,19 +67,31 @@ def run(ctx):
     # R1: the sums themselves (molar mass, number density) through natural_density=
     nd = sp.Symbol("rho_nat", positive=True)
     got_n = spec.unpack(I.call(ns, [dict(comp)], {"natural_density": nd, "wavelength": lam}))
-    m_nat = [m[0], sp.Symbol("m_Fe", positive=True) - 3 * me, m[2]]
+    m_nat = [m[0], mass_sym("Fe") - 3 * me, m[2]]
     ratio = sum(a * c for a, c in zip(q, m_nat)) / sum(a * c for a, c in zip(q, m))
     want_n = spec.compound(q, m, b, s, nd / ratio, lam)
     for k in ("sld_re", "abs_xs", "penetration"):
         eq(ctx, "R1", f"{k} with natural_density= uses density = natural_density / natural mass ratio",
            got_n[k], want_n[k], site, nonzero=[nd * M, nd * sum(a * c for a, c in zip(q, m_nat))])
+    # the same material given as a pre-built Formula that carries its own density
+    fm = I.global_name("formulas", "formula")
+    rho0 = sp.Symbol("rho0", positive=True)
+    F = I.call(fm, [dict(comp)], {"density": rho0})
+    for label, kw, wantd, nzd in (
+            ("Formula with its own density, natural_density= given", {"natural_density": nd}, want_n, [nd * M]),
+            ("Formula with its own density, density= given", {"density": rho}, want, nz),
+            ("Formula with its own density, no density keyword", {}, spec.compound(q, m, b, s, rho0, lam), [rho0 * M])):
+        gF = spec.unpack(I.call(ns, [F], dict(kw, wavelength=lam)))
+        for k in ("sld_re", "penetration"):
+            eq(ctx, "R1", f"{k}: {label}", gF[k], wantd[k], site,
+               nonzero=nzd + [sum(a * c for a, c in zip(q, m_nat))])
     # default wavelength
     got_d = spec.unpack(I.call(ns, [dict(comp)], {"density": rho}))
     lam0 = I.global_name("nsf", "ABSORPTION_WAVELENGTH")
     eq(ctx, "R1", "default wavelength is ABSORPTION_WAVELENGTH = 1.798", got_d["abs_xs"],
        spec.compound(q, m, b, s, rho, sp.Rational("1.798"))["abs_xs"], site, nonzero=nz)
     ctx.floor("R2", 8)
-    ctx.floor("R1", 4)
+    ctx.floor("R1", 10)
 
     # R3 scattering_by_wavelength, both branches
     sbw = fsite(ctx, "nsf.Neutron.scattering_by_wavelength")
@@ -106,7 +120,7 @@ def run(ctx):
     comp2 = {A["element"]: q[0], A["H1"]: q[1]}
     got2 = spec.unpack(I.call(ns, [dict(comp2)], {"density": rho, "wavelength": lam}))
     B = sp.Symbol("ebr", real=True) - sp.I * sp.Symbol("ebi", nonnegative=True)
-    mH1 = sp.Symbol("m_H1", positive=True)
+    mH1 = mass_sym("H1")
     want2 = spec.compound(q[:2], [m[0], mH1], [b[0], B], [s[0], 4 * sp.pi / 100 * sp.Abs(B) ** 2], rho, lam)
     for k in spec.OUTPUTS:
         g2 = sp.sympify(got2[k]).xreplace({apps[0]: B}) if ok else got2[k]
@@ -133,7 +147,7 @@ def run(ctx):
     ctx.floor("R5", 4)
 
     # R6 element / isotope queried directly = one-atom compound at that atom's density
-    for kind, mk, tag in (("element", m[0], "element"), ("isotope", sp.Symbol("m_Fe56", positive=True), "isotope")):
+    for kind, mk, tag in (("element", m[0], "element"), ("isotope", mass_sym("Fe56"), "isotope")):
         atom = A[kind]
         nsf = I.getattr(atom, "neutron")
         got6 = spec.unpack(I.call(I.getattr(nsf, "scattering"), [], {"wavelength": lam}))
